@@ -616,30 +616,35 @@ Lemma pool_ctx_clone_indep g1 g2 c : pool_ctx_clone g1 c = pool_ctx_clone g2 c.
 Proof. unfold pool_ctx_clone. apply pool_acquire_indep. exact pool_read_fields_in_reset_clone. Qed.
 
 Lemma pool_eval_ext rv1 rv2 g1 g2 : (forall n, rv1 n = rv2 n) ->
-  forall fuel root c ns, pool_eval fuel rv1 g1 root c ns = pool_eval fuel rv2 g2 root c ns.
+  forall fuel root c ns gas, pool_eval fuel rv1 g1 root c ns gas = pool_eval fuel rv2 g2 root c ns gas.
 Proof.
-  intro Hrv. induction fuel as [|f IH]; intros root c ns; [reflexivity|].
-  cbn [pool_eval]. destruct root.
+  intro Hrv. induction fuel as [|f IH]; intros root c ns gas; [reflexivity|].
+  cbn [pool_eval]. destruct gas as [|gas0]; [reflexivity|]. destruct root.
   - destruct (negb (pool_touch c _)); [reflexivity|].
     destruct (pool_find_extends ns) as [t|]; [|apply IH].
     destruct (negb (pool_touch _ _)); [reflexivity|].
-    rewrite <- (Hrv t). destruct (rv1 t); try reflexivity.
+    rewrite <- (Hrv t). destruct (rv1 t) as [pns|er|]; [|reflexivity|reflexivity].
     rewrite (pool_ctx_new_indep (g1 f) (g2 f)). rewrite IH. reflexivity.
   - destruct ns as [|[k pl cs] rest]; [reflexivity|].
-    rewrite (IH false c rest). f_equal.
-    repeat (match goal with |- (if ?b then _ else _) = (if ?b then _ else _) => destruct b; [try reflexivity|] end).
-    all: try reflexivity.
-    + rewrite <- (Hrv (pool_pl pl 0)). destruct (rv1 (pool_pl pl 0)) as [ins|er|]; try reflexivity.
-      destruct (negb (pool_touch c _)); [reflexivity|].
-      rewrite (pool_ctx_clone_indep (g1 f) (g2 f)), IH. reflexivity.
-    + apply IH.
-    + rewrite <- (Hrv (pool_pl pl 0)). destruct (rv1 (pool_pl pl 0)) as [mns|er|]; try reflexivity.
-      rewrite (pool_ctx_new_indep (g1 f) (g2 f) []). rewrite IH.
-      destruct (pool_eval f rv2 g2 true _ mns) as [r l1]. destruct r; try reflexivity.
-      destruct (pool_find_macro mns (pool_pl pl 1)); [|reflexivity].
-      destruct (negb (pool_touch c _)); [reflexivity|].
-      rewrite (pool_ctx_new_indep (g1 f) (g2 f)), IH. reflexivity.
-    + apply IH.
+    match goal with
+    | |- (let '(this, gas1) := ?A in _) = (let '(this, gas1) := ?B in _) => assert (E : A = B)
+    end.
+    { repeat (match goal with |- (if ?b then _ else _) = (if ?b then _ else _) => destruct b; [try reflexivity|] end).
+      all: try reflexivity.
+      + rewrite <- (Hrv (pool_pl pl 0)). destruct (rv1 (pool_pl pl 0)) as [ins|er|]; [|reflexivity|reflexivity].
+        destruct (negb (pool_touch c _)); [reflexivity|].
+        rewrite (pool_ctx_clone_indep (g1 f) (g2 f)), IH. reflexivity.
+      + apply IH.
+      + rewrite <- (Hrv (pool_pl pl 0)). destruct (rv1 (pool_pl pl 0)) as [mns|er|]; [|reflexivity|reflexivity].
+        rewrite (pool_ctx_new_indep (g1 f) (g2 f) []). rewrite IH.
+        destruct (pool_eval f rv2 g2 true _ mns gas0) as [[r l1] gas2]. destruct r; try reflexivity.
+        destruct (pool_find_macro mns (pool_pl pl 1)); [|reflexivity].
+        destruct (negb (pool_touch c _)); [reflexivity|].
+        rewrite (pool_ctx_new_indep (g1 f) (g2 f)), IH. reflexivity.
+      + apply IH. }
+    rewrite E.
+    match goal with |- (let '(this, gas1) := ?B in _) = _ => destruct B as [[r l] gas1] end.
+    destruct r; try reflexivity. rewrite IH. reflexivity.
 Qed.
 
 Lemma pool_memb_in x l : pool_memb x l = true -> In x l.
@@ -667,7 +672,7 @@ Lemma C01_every_ctx_field_classified_proof :
 Proof. split; vm_compute; reflexivity. Qed.
 
 (* ------------------------------------------------------------------ render results *)
-#[local] Opaque pool_eval_fuel.
+#[local] Opaque pool_eval_fuel pool_eval_gas.
 
 Lemma pool_render_ext st g1 g2 s1 s2 e n vars :
   (forall m, pool_resolve st s1 e m = pool_resolve st s2 e m) ->
@@ -736,9 +741,9 @@ Lemma C01_result_is_function_of_registrations_proof : forall st orc g ops e n va
                   | PLBad => (PRGarbage, [n])
                   | PLOk ns =>
                     pool_seq (PROut [], [n])
-                      (pool_eval pool_eval_fuel (pool_spec_resolve st (pool_last_reg ops) e) pool_garbage_none true
+                      (fst (pool_eval pool_eval_fuel (pool_spec_resolve st (pool_last_reg ops) e) pool_garbage_none true
                          (pool_cset (pool_ctx_new (pool_garbage_none pool_eval_fuel) (map (fun xv => (fst xv, Some (snd xv))) vars))
-                                    b#"lastLoadedTemplate" FVPtr) ns)
+                                    b#"lastLoadedTemplate" FVPtr) ns pool_eval_gas))
                   end)).
 Proof.
   intros. rewrite pool_cfg_gen_safe, pool_render_obs_eq.
